@@ -36,6 +36,8 @@ KIND_ORDER = [
     "database-reads-differ-from-reference-facade",
     "operation-result-differs-from-reference-facade",
     "adapter-result-differs-from-reference",
+    "adapter-enables-result-caching",
+    "adapter-metadata-not-forwarded",
 ]
 
 
@@ -102,7 +104,7 @@ def run(ctx):
     if not ok:
         raise RuntimeError("cargo build failed:\n" + out[-3000:])
     model = core.ocaml_build("facade", "facade", "facade_drv")
-    n_adapter, n_block = (6000, 1500) if ctx.quick else (200000, 50000)
+    n_adapter, n_block = (12000, 3000) if ctx.quick else (200000, 50000)
     d = run_driver(ctx, bins["facade"], model, ctx.seed, n_adapter, n_block, "main")
     first = core.diff_lines(d["impl"], d["model"])
     corr_ok = first is None and not d["direct"]
